@@ -56,24 +56,42 @@ var (
 	vLockDepthN int
 )
 
+// Thread locking is per goroutine: runtime.LockOSThread pins the goroutine
+// that calls it, a goroutine started from it is not pinned.
+var (
+	vLockDepthG = map[int]int{}
+	vLockEpochG = map[int]int{}
+)
+
 func vstubLockOSThread() {
-	if vLockDepthN == 0 {
+	g := vGoID()
+	if vLockDepthG[g] == 0 {
 		vLockEpochN++
+		vLockEpochG[g] = vLockEpochN
 	}
-	vLockDepthN++
+	vLockDepthG[g]++
+	vLockDepthN = vLockDepthG[g]
 }
 
 func vstubUnlockOSThread() {
-	if vLockDepthN > 0 {
-		vLockDepthN--
+	g := vGoID()
+	if vLockDepthG[g] > 0 {
+		vLockDepthG[g]--
 	}
+	vLockDepthN = vLockDepthG[g]
 }
 
 func vCurEpoch() int {
-	if vLockDepthN > 0 {
-		return vLockEpochN
+	g := vGoID()
+	if vLockDepthG[g] > 0 {
+		return vLockEpochG[g]
 	}
 	return 0
+}
+
+func vResetLocks() {
+	vLockDepthG, vLockEpochG = map[int]int{}, map[int]int{}
+	vLockDepthN, vLockEpochN = 0, 0
 }
 
 // vKernelAnswer draws (r1, errno) subject to Go's Syscall contract.
@@ -91,10 +109,13 @@ func vKernelAnswer(i int) (uintptr, syscall.Errno) {
 // goroutine locked to its thread since the previous syscall stays on it.
 func vThread(i int) uint32 {
 	tid := vU32("sys" + strconv.Itoa(i) + ".tid")
-	if n := len(vSysTrace); n > 0 {
-		prev := vSysTrace[n-1]
-		if prev.epoch != 0 && prev.epoch == vCurEpoch() {
-			vAssume(tid == prev.tid)
+	// the same lock epoch (same goroutine, pinned since) means the same thread as the last call made in it
+	if cur := vCurEpoch(); cur != 0 {
+		for j := len(vSysTrace) - 1; j >= 0; j-- {
+			if vSysTrace[j].epoch == cur {
+				vAssume(tid == vSysTrace[j].tid)
+				break
+			}
 		}
 	}
 	return tid
@@ -180,7 +201,7 @@ func H_Load() {
 	vPrivSym = vBool("privileged")
 	vSysTrace = nil
 	vNNPSet, vNNPAll, vNNPEarlier = false, false, false
-	vLockDepthN, vLockEpochN = 0, 0
+	vResetLocks()
 
 	// history: the call under test is not the first use of the package in this process. An
 	// earlier call of the API (any of its three entry points, with its own arguments and kernel
@@ -202,9 +223,9 @@ func H_Load() {
 		if pcode != 0 {
 			return
 		}
-		vAssert(vLockDepthN == 0, "C11.unlocked_after_return")
+		vAssert(vLockDepthG[vGoID()] == 0, "C11.unlocked_after_return")
 		vSysTrace = nil
-		vLockDepthN = 0
+		vLockDepthG, vLockDepthN = map[int]int{}, 0
 		vNNPEarlier = true
 		vCover("cover.history")
 	}
@@ -381,7 +402,7 @@ func vKnownNil(s vSysRecord)    {}
 func H_Supported() {
 	vSysTrace = nil
 	vNNPSet = false
-	vLockDepthN, vLockEpochN = 0, 0
+	vResetLocks()
 	vPrivSym = vBool("privileged")
 	var got bool
 	code := vRun(func() { got = Supported() })
